@@ -184,6 +184,9 @@ class Rec:
         self.stat('checked-arrays')
         try:
             bad = G.check_array_invariants(x, self.mods if mods is None else mods)
+            if not bad:
+                import c02_depth
+                bad = c02_depth.deep_array(x, self.mods if mods is None else mods)      # internal maps of LegPipes, documented storage types
         except Exception as e:
             bad = [('invariant-check-raises', '%s: %s' % (type(e).__name__, str(e)[:100]))]
         for kind, text in bad:
@@ -199,6 +202,9 @@ class Rec:
         self.stat('checked-legs')
         try:
             bad = G.check_leg_invariants(leg, self.mods if mods is None else mods, role)
+            if not bad:
+                import c02_depth
+                bad = c02_depth.deep_leg(leg, self.mods if mods is None else mods, role)
         except Exception as e:
             bad = [('invariant-check-raises', '%s: %s' % (type(e).__name__, str(e)[:100]))]
         for kind, text in bad:
@@ -1368,15 +1374,54 @@ def coverage_table(api_list, api_calls, gen_source, prog_ops=None):
     return table
 
 
-RUNNERS = {'leglookup': run_leglookup, 'flatop': run_flatop, 'flatpipe': run_flatpipe, 'linalg': run_linalg, 'reflect': run_reflect}
+def run_wrap(case, R):
+    """the tensor / leg programs of npc_gen.py (kinds 'programs' / 'legs' of the shared runner) executed through kind 'c02x': line recording,
+    input classes of the operands and the additional invariants of harness/c02_depth.py; returns the result of the inner program"""
+    import c02_depth
+    inner = dict(case['inner'])
+    if 'ops' in case:           # replay of a recorded prefix (harness/c01_common.case_of puts it next to the header)
+        inner['ops'] = case['ops']
+    if case['inner_kind'] == 'legs':
+        res = c02_depth.run_leg_program(inner, R.config)
+    else:
+        P = c02_depth.DepthRunner(inner, R.config)
+        if R.progress is not None:
+            P.progress = lambda k, o, sc: R.progress(k, o, sc, ops=P.ops)
+        res = P.run()
+    R.inner_result = res
 
 
-def run_case(case, config):
+def _ops2(name):
+    def run(case, R):
+        import c02_ops2
+        return getattr(c02_ops2, name)(case, R)
+    return run
+
+
+RUNNERS = {'leglookup': run_leglookup, 'flatop': run_flatop, 'flatpipe': run_flatpipe, 'linalg': run_linalg, 'reflect': run_reflect, 'wrap': run_wrap,
+           'apiopts': _ops2('run_apiopts'), 'dipolar': _ops2('run_dipolar'), 'legops': _ops2('run_legops')}
+
+
+def run_case(case, config, progress=None):
     R = Rec(case, config)
+    R.progress = progress
+    R.inner_result = None
+    cov = None
+    if case.get('cov'):
+        import c02_cov as cov
+        cov.start()
+        if config == 'py':
+            cov.install_param_recorder()
     try:
         with warnings.catch_warnings():
             warnings.simplefilter('ignore')
             RUNNERS[case['kind2']](case, R)
     except Exception:
         R.fail('runner', case['kind2'], None, 'crash', traceback.format_exc()[-1500:])
-    return R.result()
+    r = R.result()
+    if R.inner_result is not None:
+        r = R.inner_result
+    if cov is not None:
+        r['cov'] = cov.flush()
+        r['params'] = cov.flush_params()
+    return r
